@@ -431,7 +431,8 @@ class PVLEncoder(object):
         """Returns a ``str`` formatted as a PVL Date based
         on the *value* object according to the rules of this encoder.
         """
-        return f"{value:%Y-%m-%d}"
+        # %Y does not zero-pad years before 1000 on all platforms.
+        return f"{value.year:04d}-{value:%m-%d}"
 
     @staticmethod
     def encode_time(value: datetime.time) -> str:
